@@ -94,7 +94,7 @@ Arguments POk {A} a. Arguments PReject {A} k. Arguments PCrash {A} k.
 Definition RSyntax := 10. Definition RExpand := 11. Definition RAlign := 12. Definition RSize := 13.
 Definition RAssert := 14. Definition RFile := 15. Definition RDup := 16.
 (* internal errors *)
-Definition XKey := 1. Definition XType := 2. Definition XAssert := 3. Definition XLayout := 4. Definition XValue := 6.
+Definition XKey := 1. Definition XAssert := 3. Definition XLayout := 4.
 
 Fixpoint tlookup (n : string) (t : list (string * (Z * Z))) : option (Z * Z) :=
   match t with [] => None | (k, v) :: r => if String.eqb k n then Some v else tlookup n r end.
@@ -165,7 +165,8 @@ Definition resolve_field (cs : list (string * Z)) (al : list palias) (ss ms : li
     match fd_len d with
     | None => POk (mkPF (fd_name d) (fd_type d) k None sz a (-1))
     | Some e => match ceval cs e with
-                | Some v => POk (mkPF (fd_name d) (fd_type d) k (Some v) sz a (-1))
+                | Some v => if v <? 1 then PReject RSyntax      (* "Array length must be at least 1" *)
+                            else POk (mkPF (fd_name d) (fd_type d) k (Some v) sz a (-1))
                 | None => PReject RExpand
                 end
     end
@@ -236,27 +237,26 @@ Fixpoint rebuild (orig : list pfield) (out : list field) (npad : Z) : list pfiel
 Definition ctype_of_native (key : string) : option (Z * Z) :=
   match slookup key parser_type_names with Some nm => tlookup nm ctype_cls_types | None => None end.
 
-(* one ctypes member per field; [seen_int]: an alias-of-struct member is an int, type() raises afterwards *)
-Fixpoint ct_fields (i : Z) (ps : list pfield) (seen_int : bool) : pres (list field) :=
+(* one ctypes member per field (an alias of a struct, a struct, a message: the nested ctypes class, whose
+   size and alignment are the recorded ones - it passed this same check when it was defined) *)
+Fixpoint ct_fields (i : Z) (ps : list pfield) : pres (list field) :=
   match ps with
-  | [] => if seen_int then PCrash XType else POk []
+  | [] => POk []
   | p :: r =>
-    let m : option (Z * Z * bool) :=
+    let m : option (Z * Z) :=
       match pf_kind p with
-      | FNat => match ctype_of_native (pf_ty p) with Some (w, _) => Some (w, w, false) | None => None end
-      | FAlias (ANat k) => match ctype_of_native k with Some (w, _) => Some (w, w, false) | None => None end
-      | FAlias (AStruct _) => Some (pf_esize p, pf_align p, true)
-      | FStruct | FMsg => Some (pf_esize p, pf_align p, false)
+      | FNat => match ctype_of_native (pf_ty p) with Some (w, _) => Some (w, w) | None => None end
+      | FAlias (ANat k) => match ctype_of_native k with Some (w, _) => Some (w, w) | None => None end
+      | FAlias (AStruct _) | FStruct | FMsg => Some (pf_esize p, pf_align p)
       end in
     match m with
     | None => PCrash XKey
-    | Some (w, a, isint) =>
-      if (match pf_len p with Some n => (n <? 0) && negb isint | None => false end) then PCrash XValue
-      else match ct_fields (i + 1) r (seen_int || isint) with
-           | POk cts => POk (mkField i w a (pf_len p) (-1) :: cts)
-           | PReject k => PReject k
-           | PCrash k => PCrash k
-           end
+    | Some (w, a) =>
+      match ct_fields (i + 1) r with
+      | POk cts => POk (mkField i w a (pf_len p) (-1) :: cts)
+      | PReject k => PReject k
+      | PCrash k => PCrash k
+      end
     end
   end.
 
@@ -270,7 +270,7 @@ Definition finish_def (ap : bool) (ps : list pfield) : pres (list pfield * Z * Z
     | Raise _ => PCrash XLayout
     | Ok (fs', a) =>
       let ps' := rebuild ps fs' 0 in
-      match ct_fields 0 ps' false with
+      match ct_fields 0 ps' with
       | PCrash k => PCrash k
       | PReject k => PReject k
       | POk cts =>
@@ -459,10 +459,20 @@ Definition js_form (p : pfield) : jform :=
   end.
 
 (* values with object identity: every object/array literal gets the next allocation number;
-   Array(n).fill(v) is ONE evaluation of v referenced n times *)
-Inductive jsval := JPrim (isstr : bool) | JObj (id : Z) (fs : list (string * jsval)) | JArr (id : Z) (n : Z) (e : jsval).
+   Array.from({length: n}, () => f()) evaluates f once per element *)
+Inductive jsval := JPrim (isstr : bool) | JObj (id : Z) (fs : list (string * jsval)) | JArr (id : Z) (es : list jsval).
 Inductive jres (A : Type) := JOk (a : A) | JErr.
 Arguments JOk {A} a. Arguments JErr {A}.
+
+(* n evaluations of one callee, left to right *)
+Fixpoint js_rep (call : Z -> jres (jsval * Z)) (n : nat) (cnt : Z) : jres (list jsval * Z) :=
+  match n with
+  | O => JOk ([], cnt)
+  | S k => match call cnt with
+           | JOk (v, c1) => match js_rep call k c1 with JOk (vs, c2) => JOk (v :: vs, c2) | JErr => JErr end
+           | JErr => JErr
+           end
+  end.
 
 (* the fields of one object literal, evaluated left to right; [call] evaluates a callee *)
 Fixpoint js_fields (call : jcallee -> Z -> jres (jsval * Z)) (ps : list pfield) (cnt : Z)
@@ -473,8 +483,8 @@ Fixpoint js_fields (call : jcallee -> Z -> jres (jsval * Z)) (ps : list pfield) 
     let v := match js_form p with
              | JScalar c' => call c' cnt
              | JString _ => JOk (JPrim true, cnt)
-             | JFill n c' => match call c' cnt with
-                             | JOk (v, cnt') => JOk (JArr cnt' n v, cnt' + 1)
+             | JFill n c' => match js_rep (call c') (Z.to_nat n) cnt with
+                             | JOk (vs, cnt') => JOk (JArr cnt' vs, cnt' + 1)
                              | JErr => JErr
                              end
              end in
@@ -493,7 +503,14 @@ Fixpoint js_call (st : pstate) (fuel : nat) (c : jcallee) (cnt : Z) : jres (jsva
   | S k =>
     match c with
     | JTypeMap key => match js_prim key with JOk v => JOk (v, cnt) | JErr => JErr end
-    | JAliasV _ => JErr                       (* RTMA.aliases.X is a value (or undefined), not a function *)
+    | JAliasV n =>                      (* RTMA.aliases.N = type_map.<native>  (a function) *)
+      match find_alias n (ps_aliases st) with
+      | Some a => match pa_target a with
+                  | ANat key => match js_prim key with JOk v => JOk (v, cnt) | JErr => JErr end
+                  | AStruct _ => JErr   (* emitted as RTMA.SDF.N = RTMA.SDF.S: RTMA.aliases.N is undefined *)
+                  end
+      | None => JErr
+      end
     | JSdf n => match find_def n (ps_structs st) with
                 | Some d => match js_fields (js_call st k) (pd_fields d) (cnt + 1) with
                             | JOk (fs, c2) => JOk (JObj cnt fs, c2) | JErr => JErr end
@@ -507,12 +524,11 @@ Fixpoint js_call (st : pstate) (fuel : nat) (c : jcallee) (cnt : Z) : jres (jsva
     end
   end.
 
-Fixpoint jrepeat {A} (n : nat) (l : list A) : list A := match n with O => [] | S k => l ++ jrepeat k l end.
 Fixpoint obj_ids (v : jsval) : list Z :=
   match v with
   | JPrim _ => []
   | JObj id fs => id :: flat_map (fun x => obj_ids (snd x)) fs
-  | JArr id n e => id :: jrepeat (Z.to_nat n) (obj_ids e)
+  | JArr id es => id :: flat_map obj_ids es
   end.
 Fixpoint nodupb (l : list Z) : bool :=
   match l with [] => true | x :: r => negb (existsb (Z.eqb x) r) && nodupb r end.
